@@ -22,6 +22,7 @@ def run(run, model):
     run.do(rec.none_is_a_value, model, "C06.none-is-a-value")
     run.do(rec.placeholder_not_a_value, model)
     run.do(rec.scope_restore, model)
+    run.do(rec.placeholder_identity, model)
     run.do(rec.comprehension_env, model)
     run.do(msg.args_listed, model, "C06.args-listed")
     run.do(msg.a_repr_rule, model, "C06.a-repr")
@@ -39,3 +40,4 @@ def run(run, model):
     run.minimum("C06.placeholder-not-shown", 1)
     run.minimum("C06.scope-restore", 4)
     run.minimum("C06.comprehension-env", 2)
+    run.minimum("C06.placeholder-identity", 10)
